@@ -39,7 +39,7 @@ RULE = ("Hypothesis draws (users/assign lines over a pool of local parts with sh
 ASSUMPTIONS = ["identity is virtualised by the LD_PRELOAD shim: set*id calls are recorded (and getuid answers from the record) instead of performed",
                "home directory ownership is real (chown as root inside the sandbox); qmail-getpw sees every directory (we are root)",
                "lines of users/assign whose first character is neither '=', '+' nor '.' are not generated (qmail-users.9 does not define them); "
-               "fields contain no ':'; uid/gid fields are plain decimal numbers below 2^31",
+               "fields contain no ':'; uid/gid fields are plain decimal numbers below 2^31, plus the uids 2^32 and 2*2^32 (zero as a 32-bit uid_t: must be refused like uid 0)",
                "cdb damage = truncation / replacement by a directory; random byte flips are C20's domain",
                "one injected fault per lspawn session"]
 
@@ -149,7 +149,7 @@ def model(tab, pw, alias_name, brk, local):
             if a is None:
                 return {"kind": "defer", "path": "noalias", "napp": napp, "names": names, "stat_first": stat_first}
             res = {"path": "alias", "user": a.name, "uid": a.uid, "gid": a.gid, "home": a.home, "dash": b"-", "ext": local, "acct": a.name}
-    res["kind"] = "root" if res["uid"] == 0 else "exec"
+    res["kind"] = "root" if res["uid"] % (1 << 32) == 0 else "exec"      # the uid the process would really get is uid mod 2^32
     res["napp"] = napp
     res["names"] = names
     res["stat_first"] = stat_first
@@ -569,7 +569,8 @@ def scenarios(brk):
             loc = draw(namest)
             if kind == "+" and draw(st.integers(0, 11)) == 0:
                 loc = b""
-            uid = draw(st.sampled_from([0] + [1000 + i] * 9 + [1, 65534, 2147483647]))
+            # 2^32 and 2*2^32 are well-formed decimal uids that become 0 when stored in a 32-bit uid_t: "never root" must hold for them too
+            uid = draw(st.sampled_from([0] + [1000 + i] * 9 + [1, 65534, 2147483647, 4294967296, 8589934592]))
             lines.append({"kind": kind, "local": vlib.jsonable(loc),
                           "user": vlib.jsonable(draw(st.sampled_from([b"u%d" % i, b"u%d" % i, b"joe", b"root", b"U" + B + b"%d" % i, b""]))),
                           "uid": uid, "gid": draw(st.sampled_from([2000 + i] * 6 + [0, 100])),
